@@ -5,6 +5,7 @@ from contracts import c02_remove_reactions_ctx as RRC
 from contracts import c12_rxn_arith as ARITH
 from contracts import c02_add_metabolites_ctx as AMC
 from contracts import c02_remove_metabolites_ctx as RMC
+from contracts import w_model_small as WMS
 from props._generic import run_property, replay_with_driver
 
 LEVEL = "other"
@@ -17,8 +18,10 @@ OBJECTIVE_KEYS = ["set_objective", "set_objective.reset", "_valid_atoms", "Model
 
 def run(rep):
     run_property(rep, KEYS, hooks=C.ALL_HOOKS, more=[(OBJECTIVE_KEYS, O.HOOKS), (RRC.KEYS, RRC.HOOKS), (ARITH.KEYS, ARITH.HOOKS),
-                                                      (AMC.KEYS, AMC.HOOKS), (RMC.KEYS, RMC.HOOKS)],
+                                                      (AMC.KEYS, AMC.HOOKS), (RMC.KEYS, RMC.HOOKS),
+                       (["Model.add_cons_vars", "Model.remove_cons_vars", "Model.objective_direction@setter"], WMS.HOOKS)],
                  lemmas=lambda: C.lemmas() + O.lemmas() + RRC.lemmas() + ARITH.lemmas() + AMC.lemmas() + RMC.lemmas(), explanation=(
+        "The entry points the other contracts only RECORD are proved to forward faithfully: Model.add_cons_vars(what, **kwargs) makes exactly one call add_cons_vars_to_problem(self, what, **kwargs) (same model, same object, keywords as given), Model.remove_cons_vars(what) exactly one call remove_cons_vars_from_problem(self, what) - the two functions whose solver call and undo registration are proved below. The function under @resettable of the Model.objective_direction setter is proved: value.lower() starting with max / min sets the solver objective's direction to 'max' / 'min' (the documented spellings max, min, maximize, minimize by name), anything else raises ValueError with nothing changed (the decorator, proved as resettable.wrapper, registers the undo before the body validates: an invalid value inside a context leaves a harmless undo entry). "
         "Context-aware model edits under contract with their undo registrations: Model.remove_reactions with a context open (remove_orphans=False; lists and models of any size): every change it makes to model pointers, model.reactions, back references and group members has its inverse registered in the INNERMOST context, nothing is registered for a change that was not made and nothing twice (ghost trace; per reaction [objective coefficients,] _populate_solver([r]), setattr(r, _model, model), reactions.add(r), x._reaction.add(r) per former referrer, g.add_members([r]) per former group), with the glue lemmas undo-restores (replaying the registered undos on the exit state gives back the entry views); Reaction.__imul__ in a context: exactly the two registrations _populate_solver([self]) and __imul__(1/c), lemma undo-restores (precondition c != 0). "
         "Model.add_metabolites / Model.remove_metabolites with a context open (lists of any size; remove: list or one metabolite, keeping the reactions or destructive): the final state as without a context, and every change they make themselves to model pointers, model.metabolites, back references (add) and group members (remove) has exactly its inverse registered in the INNERMOST context, nothing for a change that was not made, nothing twice (ghost trace; add: x._reaction.update(exactly the set taken out) per metabolite that lost back-references, metabolites.__isub__(joining), setattr(x, _model, None) per joining metabolite, nothing on the early exits; remove: g.add_members([x]) per former (metabolite, group) membership, metabolites.__iadd__(handled), setattr(x, _model, model) per handled metabolite; constraints through the recorded add_cons_vars / remove_cons_vars call whose own registration is proved below; subtract_metabolites called with the default reversibly, remove_from_model = remove_reactions), the captured lists are read in the exit state (not mutated after registration), glue lemmas undo-restores; two defects visible in these contracts are reported (the registered inverse of `x._model = self` is None, not the old value: a metabolite taken from another model loses its model pointer; a raising DictList.__iadd__ / __isub__ leaves model pointers changed with no inverse registered). "
         "Deductive (kernel): HistoryManager.reset is proved to replay the recorded undo actions last-in-first-out and to empty the "
